@@ -4,6 +4,7 @@
 
 package listener
 
+//@ import io "io"
 // ---- C18: a listener spec name~listen[~forward] selects the documented kind of listener, or is rejected
 //@ pred streamListenScheme(s string) := s == "tcp" || s == "unix" || s == "unixpacket"
 //@ pred stdioListenScheme(s string) := s == "stdin" || s == "stdio"
@@ -42,3 +43,9 @@ package listener
 //@   requires conn != nil && l.Config != nil && upstream.UpstreamsInv(l.Upstreams)
 //@   callsite ConnectDirectly#1 (ok bool) assume G_snap_direct() == ok "ghost snapshot: the direct attempt handled the connection"
 //@   callsite Connect#1 () require !G_snap_direct()                                                             :upstreams_only_after_the_direct_attempt_failed
+// C14 / C17 / C01: the local connection is piped to the upstream stream it was given, and when handling ends
+// (whatever the outcome) both the upstream stream and the local connection are closed
+//@   property C14, C17, C01
+//@   callsite PipeData#1 (arg1 io.ReadWriteCloser, up streams.ReadWriteCloserClosed) require spec_sameref(arg1, up)      :pipes_to_the_stream_just_opened
+//@   callsite TryClose#1 (arg0 io.Closer, up streams.ReadWriteCloserClosed) require spec_sameref(arg0, up)               :upstream_stream_closed_when_handling_ends
+//@   callsite TryClose#2 (arg0 io.Closer) require spec_sameref(arg0, conn)                                               :local_connection_closed_when_handling_ends
